@@ -78,7 +78,8 @@ func EndBlocker(ctx sdk.Context, k keeper.Keeper) {
 						sdk.NewAttribute(types.AttributeKeyPriceDenom, rawDenom),
 					),
 				})
-				return
+				// no provider can be priced: the batch is skipped below (no providers), so that the
+				// context stays scheduled instead of being left behind in the processed queue
 			}
 
 			if len(providers) > 0 && len(providers) >= int(requestContext.ResponseThreshold) {
